@@ -8,7 +8,8 @@ CONTENT = {
     "formatted": lambda i: ("local x%d = %d\n" % (i, i)).encode(),
     "unformatted": lambda i: ("local   x%d   =   %d\nlocal y = {1,2,\n3}\n" % (i, i)).encode(),
     "unparseable": lambda i: ("local = = %d\n" % i).encode(),
-    "unreadable": lambda i: b"\xff\xfe local x = 1\n",
+    # not UTF-8: either nowhere near Lua, or (odd i) inside a string and a comment of an unformatted but lexable program
+    "unreadable": lambda i: b"\xff\xfe local x = 1\n" if i % 2 == 0 else ("local   s%d   =   \"caf" % i).encode() + b"\xe9\" -- \xff\n",
     "verifyfail": lambda i: ("local x%d = bar -- c\n(foo)(t)\n" % i).encode(),
     "readonly": lambda i: ("local   r%d   =   1\n" % i).encode(),
 }
